@@ -19,6 +19,10 @@ CLAIMED = {
  'C06': ("reference viable-prefix position + argument invariants on every syntax_error call", "6.C06", "Exploration on reduced (strict) grammars with and without error rules (found F19, F28)."),
  'C07': ("full-yield grammars: the leaves of the recovered tree must be a repair of the input; token accounting against the callbacks; membership in the reference enumeration over the augmented grammar", "6.C07",
          "Exploration (found F20, F21, F22). Restricted to full-yield translations; the residual NULL-root class is a listed finding."),
+ 'C10': ("reference grammar classifier (admissible error-code set) on generated terminal/rule lists with injected defects", "6.C10",
+         "Exploration: tens of thousands of definitions per run, every documented defect class and pairs of them (found F17, F18)."),
+ 'C11': ("twin definition: printed description vs read_grammar of the denoted grammar, compared on definition result and parse outcomes; mutated texts must fail cleanly with a line number inside the text", "6.C11",
+         "Exploration over lexical variation of the documented syntax (found F05, F06, F07, F08, F10)."),
  'C08': ("reference minimum over all simple recoveries computed on reference Earley sets", "6.C08", "Exploration; inequality only, as the property states; meaningful together with C07's accounting clause."),
 }
 m={
